@@ -177,7 +177,7 @@ def run_shard(spec, tier, seed):
                 if r2 >= r1 and a2 >= a1 and closes[i] and closes[j] is False:
                     viol("isclose-stricter-when-tolerance-grows", cell, small=[r1, a1], large=[r2, a2], **det)
             res.cell(cellbase, pat.split(":")[0], "object")
-            obj_results.append((pat, ca, cb, ma, mb, eq, ne, closes))
+            obj_results.append((pat, ca, cb, ma, mb, eq, ne, closes, pat.startswith("none") and len(shared) < len(ca)))
             if pi == 1 and s2 == R.SYSTEMS[dim][0]:
                 res.sample({"systems": cellbase, "pattern": pat, "a": [repr(x) for x in ca], "b": [repr(x) for x in cb],
                             "eq": eq, "ne": ne, "isclose_by_tolerance": closes})
@@ -189,6 +189,10 @@ def run_shard(spec, tier, seed):
         rows_b = [o[2] for o in obj_results]
         exp_eq = [o[5] for o in obj_results]
         exp_ne = [o[6] for o in obj_results]
+        # the same vector written in two coordinate systems compares equal or not depending on the last bit of a
+        # conversion; Python floats and NumPy loops may round that bit differently (found by the thorough tier, one element
+        # in 240): array-vs-object agreement is not judged at those elements for exact comparisons
+        fragile = {i for i, o in enumerate(obj_results) if o[8]}
         n = len(rows_a)
         counts = [2, 0, n - 2] if n > 2 else [n]
         builders = {
@@ -245,6 +249,9 @@ def run_shard(spec, tier, seed):
                         viol(f"exception-in-array-equality form={fname} pairing={ba}x{bb}", cell, exc=repr(e)[:300])
                         continue
                     res.evaluations += n
+                    if len(got) == len(exp) and fragile:
+                        res.count("array_vs_object_not_judged_on_rounding_knife_edge", len(fragile))
+                        got = [e_ if i in fragile else g for i, (g, e_) in enumerate(zip(got, exp))]
                     if got != exp:
                         bad = [i for i, (g, e_) in enumerate(zip(got, exp)) if g != e_] if len(got) == len(exp) else "length"
                         viol(f"array-{group}-differs-from-object form={fname} pairing={ba}x{bb}", cell, got=got, expected=exp,
@@ -263,6 +270,9 @@ def run_shard(spec, tier, seed):
                         viol(f"exception-in-array-isclose form={fname} pairing={ba}x{bb}", cell, exc=repr(e)[:300])
                         continue
                     res.evaluations += n
+                    got_raw = list(got)
+                    if len(got) == len(exp_c) and fragile and rtol < 1e-13 and atol < 1e-13:
+                        got = [e_ if i in fragile else g for i, (g, e_) in enumerate(zip(got, exp_c))]
                     if got != exp_c:
                         viol(f"array-isclose-differs-from-object form={fname} pairing={ba}x{bb}", cell, got=got, expected=exp_c,
                              rtol=rtol, atol=atol)
@@ -276,8 +286,8 @@ def run_shard(spec, tier, seed):
                             except Exception as e:
                                 viol(f"exception-in-allclose form={an} pairing={ba}x{bb}", cell, exc=repr(e)[:300])
                                 continue
-                            if ga != all(exp_c):
-                                viol(f"allclose-is-not-all-isclose form={an} pairing={ba}x{bb}", cell, got=ga, isclose=exp_c)
+                            if ga != all(got_raw):   # all() of the same backend's own isclose
+                                viol(f"allclose-is-not-all-isclose form={an} pairing={ba}x{bb}", cell, got=ga, isclose=got_raw)
             res.cell(cellbase, "arrays", f"{ba}x{bb}")
         # ---------------- an object broadcast against an array
         o = obj_results[0]
@@ -294,6 +304,9 @@ def run_shard(spec, tier, seed):
                 viol(f"exception-object-vs-array pairing=objectx{bb}", cellbase, exc=repr(e)[:300])
                 continue
             exp = [bool(B.mk_obj(s2, rb, False) == A0) for rb in rows_b]
+            if 0 in fragile:   # row 0 is A0's own vector written in the other system: a rounding knife edge (see above)
+                g1[0] = g2[0] = exp[0]
+                g3[0] = not exp[0]
             if bb == "numpy":
                 # numpy.isclose / numpy.allclose dispatch through the array even when the object comes first:
                 # the tolerance rule is asymmetric (rtol * |other|), so operand order matters
@@ -308,11 +321,13 @@ def run_shard(spec, tier, seed):
                         viol("exception-in-numpy.isclose pairing=objectxnumpy", cellbase, exc=repr(e)[:300])
                         break
                     res.evaluations += 3 * n
+                    if all_ab != all(got_ab):
+                        viol("numpy.allclose-is-not-all-isclose pairing=objectxnumpy", cellbase, rtol=rtol, atol=atol, got=all_ab)
+                    if 0 in fragile and rtol < 1e-13 and atol < 1e-13:
+                        got_ab[0], got_ba[0] = want_ab[0], want_ba[0]
                     if got_ab != want_ab or got_ba != want_ba:
                         viol("numpy.isclose-differs-from-method pairing=objectxnumpy", cellbase, rtol=rtol, atol=atol,
                              got=[got_ab, got_ba], expected=[want_ab, want_ba])
-                    if all_ab != all(want_ab):
-                        viol("numpy.allclose-is-not-all-isclose pairing=objectxnumpy", cellbase, rtol=rtol, atol=atol, got=all_ab)
             res.evaluations += 3 * n
             if g1 != exp or g2 != exp:
                 viol(f"broadcast-eq-differs-from-object pairing=objectx{bb}", cellbase, got=[g1, g2], expected=exp)
